@@ -1,14 +1,26 @@
 import FitProps.IntegrityLemmas
+import FitProps.IntegrityAsBuiltLemmas
+import FitProps.IntegrityHeaderLemmas
 /-!
 # C04 — Corrupted or truncated files are rejected, never silently accepted
 
-PROPERTY THEOREMS (audited by ./check): C04_consts, C04_burst, C04_bitflip, C04_truncation, C04_intact_accepted,
-C04_append, C04_suffix, C04_suffix_complete, C04_reference_partial, C04_reference_witness
+PROPERTY THEOREMS (audited by ./check; the encoder-side ones are in FitProps/C04Encoder.lean):
+* corruption of the records / trailing CRC, truncation: C04_consts, C04_burst, C04_bitflip, C04_truncation, C04_intact_accepted;
+* appended data: C04_append, C04_suffix_check, C04_suffix_complete; with "not complete valid sequences" read by the REFERENCE:
+  C04_suffix_as_built (every suffix, rules as built), C04_suffix_partial / C04_suffix_complete_partial (integrity rules, outside
+  the exact class of KF-C04-1), C04_suffix_witness (the full statement `C04_suffix_full` fails inside the class);
+* reference: C04_check_eq_reference_as_built (EVERY byte string: the check IS the integrity rules with the code's checksum
+  rule), C04_reference_partial + C04_reference_exact (the check equals the reference of the integrity rules exactly where the
+  two references agree: the class of KF-C04-1 is `reference bs ≠ referenceAsBuilt bs`), C04_reference_no_legacy (the former
+  sufficient condition), C04_reference_witness (`C04_reference_full` fails on Settings.fit);
+* the 14 header bytes: C04_header_checked, C04_header_burst, C04_header_size12, C04_header_crc_zeroed_accepted (the one header
+  corruption that is NOT detected; inside KF-C04-1).
 
 Objects: `Integrity.checkIntegrity` (model of `Decoder.CheckIntegrity`), `Integrity.decodeOne` / `decodeAll`
 (model of the first `Decode()` / of the decode loop, checksums on), `IsEncoderOutput14` ("encoder output" as a
-predicate on bytes, stated with the independent framing reader `FitFormat`), `IntegritySpec.reference`.
-All statements are for files of ANY length.
+predicate on bytes, stated with the independent framing reader `FitFormat`; `C04_encoder_output` proves it of the encoder
+model), `IntegritySpec.reference` (the integrity rules), `IntegritySpec.referenceAsBuilt` (the rules with the code's
+checksum rule). All statements are for files of ANY length.
 -/
 namespace Fit.C04
 open Fit.Crc Fit.Integrity Fit.Gen.Integ
@@ -213,9 +225,9 @@ theorem C04_append (f s : List Nat) (n : Nat) (hf : checkIntegrity f = .ok n) (h
   rw [Nat.zero_add] at this
   rw [this, checkLoop_fuel ((f ++ s).length + 1) (s.length + 1) 0 s (by simp; omega) (by omega)]
 
-/-- **Suffix.** Appending bytes that are not themselves complete valid sequences to an accepted stream makes the
-integrity check fail. -/
-theorem C04_suffix (f s : List Nat) (n : Nat) (hf : checkIntegrity f = .ok n) (hs : s ≠ [])
+/-- **Suffix, in terms of the check itself** (lemma for the theorems below): if the check does not accept `s`
+alone, it does not accept `f ++ s`. -/
+theorem C04_suffix_check (f s : List Nat) (n : Nat) (hf : checkIntegrity f = .ok n) (hs : s ≠ [])
     (hbad : ∀ m, checkIntegrity s ≠ .ok m) : ∀ m, checkIntegrity (f ++ s) ≠ .ok m := by
   intro m
   rw [C04_append f s n hf hs]
@@ -223,23 +235,88 @@ theorem C04_suffix (f s : List Nat) (n : Nat) (hf : checkIntegrity f = .ok n) (h
   | ok k => exact absurd h (hbad k)
   | err e k => simp [bump]
 
-/-- … and appending complete valid sequences is accepted, the counts add up (chained FIT files). -/
+/-- … and appending what the check accepts is accepted, the counts add up (chained FIT files). -/
 theorem C04_suffix_complete (f s : List Nat) (n m : Nat) (hf : checkIntegrity f = .ok n)
     (hs : checkIntegrity s = .ok m) : checkIntegrity (f ++ s) = .ok (m + n) := by
   have hne : s ≠ [] := by
     intro h; subst h; simp [checkIntegrity, checkLoop, decodeFileHeader] at hs
   rw [C04_append f s n hf hne, hs]; rfl
 
+/-! ### the reference: the code's rules are the integrity rules except for the checksum coverage -/
+
+theorem verdict_ok {r : Result} {m : Nat} (h : verdict r = .ok m) : r = .ok m := by
+  cases r with
+  | ok k => simp only [verdict, IntegritySpec.Verdict.ok.injEq] at h; rw [h]
+  | err e k => simp [verdict] at h
+
+/-- **The check IS the reference as built — every byte string.** Verdict and count of valid leading sequences of
+`CheckIntegrity` are those of `IntegritySpec.referenceAsBuilt`: the declarative integrity rules (header size 12/14 and
+".FIT", non-zero data size, header CRC when present and non-zero, nothing but valid sequences up to the end) with the
+ONE rule the code implements differently — the file CRC is taken over the records only (the checksum restarts after
+the header) instead of over the whole sequence from its first byte. No hypothesis about the headers met. -/
+theorem C04_check_eq_reference_as_built (bs : List Nat) (hb : Bytes bs) :
+    verdict (checkIntegrity bs) = IntegritySpec.referenceAsBuilt bs :=
+  check_asbuilt_lockstep _ 0 bs hb (by omega)
+
 /-- the full statement of the last clause of the property: on ANY byte string the integrity check's verdict and
 count of valid leading sequences equal the reference's. FALSE on the pinned tree (see `C04_reference_witness`). -/
 def C04_reference_full : Prop := ∀ bs, Bytes bs → verdict (checkIntegrity bs) = IntegritySpec.reference bs
 
-/-- **Reference, partial.** For every byte string on which the reference walk meets no 12-byte header and no
-14-byte header whose CRC field is 0 (`legacyMet = false`, the complement of finding KF-C04-1 / F06), verdict and
-count of `CheckIntegrity` equal the reference's. -/
-theorem C04_reference_partial (bs : List Nat) (hb : Bytes bs) (hleg : IntegritySpec.legacyMet bs = false) :
+/-- **Reference, partial — outside the EXACT class of finding KF-C04-1.** For every byte string on which the
+integrity rules and the rules as built give the same verdict and count (`reference bs = referenceAsBuilt bs`),
+verdict and count of `CheckIntegrity` equal the reference's. (The two can differ only where a sequence with a
+12-byte header, or a 14-byte header whose CRC field is 0, has different checksums over records and over the whole
+sequence: `C04_reference_no_legacy`.) -/
+theorem C04_reference_partial (bs : List Nat) (hb : Bytes bs)
+    (hcls : IntegritySpec.reference bs = IntegritySpec.referenceAsBuilt bs) :
+    verdict (checkIntegrity bs) = IntegritySpec.reference bs := by
+  rw [hcls]; exact C04_check_eq_reference_as_built bs hb
+
+/-- … and the class is exact: the check disagrees with the reference on `bs` precisely when the two references do -/
+theorem C04_reference_exact (bs : List Nat) (hb : Bytes bs) :
+    verdict (checkIntegrity bs) = IntegritySpec.reference bs ↔
+      IntegritySpec.reference bs = IntegritySpec.referenceAsBuilt bs := by
+  rw [C04_check_eq_reference_as_built bs hb]; exact eq_comm
+
+/-- the former statement of `C04_reference_partial` (a sufficient condition for being outside the class): no 12-byte
+header and no zero header-CRC field met by the reference walk -/
+theorem C04_reference_no_legacy (bs : List Nat) (hb : Bytes bs) (hleg : IntegritySpec.legacyMet bs = false) :
+    IntegritySpec.reference bs = IntegritySpec.referenceAsBuilt bs ∧
     verdict (checkIntegrity bs) = IntegritySpec.reference bs :=
-  check_ref_lockstep _ 0 bs hb (by omega) hleg
+  ⟨reference_eq_asBuilt_of_no_legacy bs hb hleg, check_ref_lockstep _ 0 bs hb (by omega) hleg⟩
+
+/-! ### appended data, "not complete valid sequences" read by the reference -/
+
+/-- the full statement of the suffix clause: appending bytes that are not complete valid sequences BY THE INTEGRITY
+RULES to an accepted stream makes the check fail. FALSE on the pinned tree (`C04_suffix_witness`, inside KF-C04-1). -/
+def C04_suffix_full : Prop :=
+  ∀ (f s : List Nat) (n : Nat), Bytes s → checkIntegrity f = .ok n → s ≠ [] →
+    (∀ m, IntegritySpec.reference s ≠ .ok m) → ∀ m, checkIntegrity (f ++ s) ≠ .ok m
+
+/-- **Suffix, by the rules as built — every suffix.** Appending bytes that are not complete valid sequences under
+the rules as built to an accepted stream makes the integrity check fail. -/
+theorem C04_suffix_as_built (f s : List Nat) (n : Nat) (hb : Bytes s) (hf : checkIntegrity f = .ok n) (hs : s ≠ [])
+    (hbad : ∀ m, IntegritySpec.referenceAsBuilt s ≠ .ok m) : ∀ m, checkIntegrity (f ++ s) ≠ .ok m := by
+  apply C04_suffix_check f s n hf hs
+  intro m hm
+  apply hbad m
+  rw [← C04_check_eq_reference_as_built s hb, hm]; rfl
+
+/-- **Suffix, partial.** Appending bytes that are not complete valid sequences by the integrity rules
+(`IntegritySpec.reference`, not the check itself) to an accepted stream makes the integrity check fail — for every
+suffix outside the exact class of KF-C04-1. -/
+theorem C04_suffix_partial (f s : List Nat) (n : Nat) (hb : Bytes s) (hf : checkIntegrity f = .ok n) (hs : s ≠ [])
+    (hcls : IntegritySpec.reference s = IntegritySpec.referenceAsBuilt s)
+    (hbad : ∀ m, IntegritySpec.reference s ≠ .ok m) : ∀ m, checkIntegrity (f ++ s) ≠ .ok m :=
+  C04_suffix_as_built f s n hb hf hs (by rw [← hcls]; exact hbad)
+
+/-- … and appending complete valid sequences by the integrity rules is accepted, the counts add up -/
+theorem C04_suffix_complete_partial (f s : List Nat) (n m : Nat) (hb : Bytes s) (hf : checkIntegrity f = .ok n)
+    (hcls : IntegritySpec.reference s = IntegritySpec.referenceAsBuilt s)
+    (hs : IntegritySpec.reference s = .ok m) : checkIntegrity (f ++ s) = .ok (m + n) := by
+  apply C04_suffix_complete f s n m hf
+  apply verdict_ok
+  rw [C04_check_eq_reference_as_built s hb, ← hcls, hs]
 
 /-- the official SDK sample testdata/from_official_sdk/Settings.fit (12-byte header, CRC over header and records) -/
 def settingsFit : List Nat :=
@@ -252,14 +329,86 @@ def settingsFit : List Nat :=
 `CheckIntegrity` — as the code — rejects it with a CRC mismatch, and so does `Decode`. Hence the full statement fails. -/
 theorem C04_reference_witness :
     IntegritySpec.reference settingsFit = .ok 1 ∧ checkIntegrity settingsFit = .err .crc 0 ∧
-    decodeAll true settingsFit = .err .crc 0 ∧ IntegritySpec.legacyMet settingsFit = true ∧ ¬ C04_reference_full := by
+    decodeAll true settingsFit = .err .crc 0 ∧ IntegritySpec.referenceAsBuilt settingsFit = .bad 0 ∧
+    IntegritySpec.kfC04 settingsFit = true ∧ ¬ C04_reference_full := by
   have h1 : IntegritySpec.reference settingsFit = .ok 1 := by decide +kernel
   have h2 : checkIntegrity settingsFit = .err .crc 0 := by decide +kernel
-  refine ⟨h1, h2, by decide +kernel, by decide +kernel, ?_⟩
+  refine ⟨h1, h2, by decide +kernel, by decide +kernel, by decide +kernel, ?_⟩
   intro hfull
   have := hfull settingsFit (by decide +kernel)
   rw [h1, h2] at this
   cases this
+
+/-! ### the 14 header bytes
+
+The theorems above are about everything AFTER the header. For the header itself: the decoder refuses a header whose size
+byte is not 12/14, whose tag is not ".FIT", whose data size is 0, or whose CRC field is non-zero and is not the CRC-16 of
+the twelve bytes before it (`C04_header_checked`); a burst within 16 bits anywhere in the 14 header bytes of an encoder
+output always leaves a CRC field that is NOT the CRC of the corrupted twelve bytes (`C04_header_burst`), so it is
+rejected — by `CheckIntegrity`, `Decode` and the decode loop — unless (a) the corrupted size byte reads 12: then
+`CheckIntegrity` still rejects (`C04_header_size12`; for `Decode` there is no theorem: the first sequence is then judged
+by a records-only checksum over shifted bytes), or (b) the corrupted CRC field reads 0x0000: the code does not check
+the header then. Case (b) with the twelve bytes intact — the burst is exactly the stored header CRC — is ACCEPTED
+(`C04_header_crc_zeroed_accepted`); the integrity rules reject it (file CRC over the whole sequence): it lies inside the
+class of finding KF-C04-1. -/
+
+/-- the file with its 14 header bytes xor-ed with the error pattern `e` (14 bytes) -/
+def corruptHeader (f e : List Nat) : List Nat := xorL (f.take 14) e ++ f.drop 14
+
+/-- **Header check.** Any 14 bytes `H'` in the place of a file header, followed by anything: if the size byte does not
+read 12 and the CRC field (bytes 12, 13) is neither zero nor the CRC-16 of bytes 0..11, then `CheckIntegrity`,
+`Decode` and the decode loop fail (not a FIT file: size byte, tag, zero data size; or header CRC mismatch). -/
+theorem C04_header_checked (H' x : List Nat) (hb : Bytes H') (hl : H'.length = 14) (h12 : H'.head? ≠ some 12)
+    (hk0 : le16 (H'.drop 12) ≠ 0) (hk : le16 (H'.drop 12) ≠ crcSpec 0 (H'.take 12)) : Rejected (H' ++ x) := by
+  obtain ⟨e, he⟩ := header_replaced_error H' x hb hl h12 hk0 hk
+  refine rejected_of_header_error he ?_
+  intro h
+  have := congrArg List.length h
+  simp [hl] at this
+
+/-- **Bursts in the header.** In an encoder output, a non-zero error pattern confined to 16 consecutive bits anywhere
+in the 14 header bytes leaves a header whose CRC field is not the CRC-16 of its first twelve bytes; hence the file is
+rejected by `CheckIntegrity`, `Decode` and the decode loop unless the corrupted size byte reads 12 or the corrupted CRC
+field reads 0x0000 (the two cases of the section comment). -/
+theorem C04_header_burst (f e : List Nat) (hf : IsEncoderOutput14 f) (he : Bytes e) (hl : e.length = 14)
+    (hb : BurstWithin16 e) :
+    le16 ((xorL (f.take 14) e).drop 12) ≠ crcSpec 0 ((xorL (f.take 14) e).take 12) ∧
+    ((xorL (f.take 14) e).head? ≠ some 12 → le16 ((xorL (f.take 14) e).drop 12) ≠ 0 → Rejected (corruptHeader f e)) := by
+  have hI := encoderOutput_intact hf
+  have hcrc := header_burst_crc hI e he hl hb
+  refine ⟨hcrc, fun h12 hk0 => ?_⟩
+  have hfb : Bytes f := hf.1
+  have hl14 : (f.take 14).length = e.length := by
+    obtain ⟨pv, p0, p1, d0, d1, d2, d3, k0, k1, rest, hfe, _⟩ := intact_tail hI
+    rw [hl, hfe]; rfl
+  exact C04_header_checked _ _ (xorL_bytes _ _ (hfb.take 14) he) (by rw [xorL_length _ _ hl14, hl14, hl]) h12 hk0 hcrc
+
+/-- **Size byte reads 12** (e.g. the single-bit flip 14 → 12), the three bytes after it anything: `CheckIntegrity`
+rejects the file — the former header CRC is taken for record bytes and two bytes are left over at the end. -/
+theorem C04_header_size12 (f : List Nat) (hf : IsEncoderOutput14 f) (a b c : Nat) :
+    ∀ n, checkIntegrity (12 :: a :: b :: c :: f.drop 4) ≠ .ok n :=
+  size12_check_rejected (encoderOutput_intact hf) a b c
+
+/-- **The header corruption that is NOT detected** (inside finding KF-C04-1): in an encoder output with at least one
+record byte whose header CRC is not 0x0000, overwrite the CRC field with 0x0000 (a burst of 16 bits) and nothing else.
+`CheckIntegrity` accepts the file as one sequence (the code treats 0 as "not computed" — so does the protocol — and
+then judges the records alone); by the integrity rules the file CRC must cover the whole sequence, which it no longer
+does: the reference rejects, the reference as built accepts, the stream is in the class of KF-C04-1. -/
+theorem C04_header_crc_zeroed_accepted (f : List Nat) (hf : IsEncoderOutput14 f) (hD : 16 < f.length)
+    (hkz : le16 ((f.take 14).drop 12) ≠ 0) :
+    checkIntegrity (f.take 12 ++ [0, 0] ++ f.drop 14) = .ok 1 ∧
+    IntegritySpec.reference (f.take 12 ++ [0, 0] ++ f.drop 14) = .bad 0 ∧
+    IntegritySpec.referenceAsBuilt (f.take 12 ++ [0, 0] ++ f.drop 14) = .ok 1 ∧
+    IntegritySpec.kfC04 (f.take 12 ++ [0, 0] ++ f.drop 14) = true := by
+  obtain ⟨h1, h2⟩ := crc_zeroed (encoderOutput_intact hf) hD hkz
+  have hfb : Bytes f := hf.1
+  have hgb : Bytes (f.take 12 ++ [0, 0] ++ f.drop 14) :=
+    ((hfb.take 12).append (Bytes.cons (by decide) (Bytes.cons (by decide) Bytes.nil))).append (hfb.drop 14)
+  have h3 : IntegritySpec.referenceAsBuilt (f.take 12 ++ [0, 0] ++ f.drop 14) = .ok 1 := by
+    rw [← C04_check_eq_reference_as_built _ hgb, h1]; rfl
+  refine ⟨h1, h2, h3, ?_⟩
+  simp only [IntegritySpec.kfC04, h2, h3, decide_eq_true_eq]
+  intro h; cases h
 
 /-! ### non-vacuity: a concrete encoder output meets the hypotheses -/
 
@@ -278,11 +427,46 @@ example : BurstWithin16 (List.replicate 5 0 ++ [0x80, 0xA5, 0x40] ++ List.replic
 /-- and the corrupted sample is rejected by evaluation too (as C04_burst says) -/
 example : checkIntegrity (corrupt sampleFit (List.replicate 5 0 ++ [0x80, 0xA5, 0x40] ++ List.replicate 23 0)) = .err .crc 0 := by
   decide +kernel
-/-- C04_reference_partial is not vacuous: the sample has no legacy header, and the reference accepts it -/
-example : IntegritySpec.legacyMet sampleFit = false ∧ IntegritySpec.reference sampleFit = .ok 1 := by decide +kernel
-/-- C04_suffix: trailing garbage after the sample is not a complete sequence -/
-example : ∀ m, checkIntegrity [0x0e, 0x20] ≠ .ok m := by
-  intro m; have : checkIntegrity [0x0e, 0x20] = .err .eof 0 := by decide +kernel
-  rw [this]; simp
+/-- C04_reference_partial / C04_reference_no_legacy are not vacuous: the sample is outside the class (no legacy header,
+the two references agree), and the reference accepts it; three streams that DO contain a 12-byte header or a zero
+header-CRC field and are still outside the class (both references reject: truncated / wrong CRC either way) -/
+example : IntegritySpec.legacyMet sampleFit = false ∧ IntegritySpec.kfC04 sampleFit = false ∧
+    IntegritySpec.reference sampleFit = .ok 1 := by decide +kernel
+example : IntegritySpec.legacyMet (settingsFit.take 40) = true ∧ IntegritySpec.kfC04 (settingsFit.take 40) = false ∧
+    IntegritySpec.kfC04 ([0x0c] ++ sampleFit.drop 1) = false := by decide +kernel
+
+/-- C04_header_burst on the sample: a single flipped bit of the data size (byte 4) is a burst; size byte and CRC field are
+untouched (so neither exception applies) and the corrupted file is rejected, by evaluation too -/
+example : BurstWithin16 ([0, 0, 0, 0, 1] ++ List.replicate 9 0) ∧
+    (xorL (sampleFit.take 14) ([0, 0, 0, 0, 1] ++ List.replicate 9 0)).head? ≠ some 12 ∧
+    le16 ((xorL (sampleFit.take 14) ([0, 0, 0, 0, 1] ++ List.replicate 9 0)).drop 12) ≠ 0 ∧
+    checkIntegrity (corruptHeader sampleFit ([0, 0, 0, 0, 1] ++ List.replicate 9 0)) = .err .crc 0 :=
+  ⟨⟨32, 1, by decide +kernel, by decide, by decide⟩, by decide +kernel, by decide +kernel, by decide +kernel⟩
+/-- C04_header_crc_zeroed_accepted on the sample (header CRC 0xAEF8 ≠ 0), by evaluation -/
+example : le16 ((sampleFit.take 14).drop 12) ≠ 0 ∧ checkIntegrity (sampleFit.take 12 ++ [0, 0] ++ sampleFit.drop 14) = .ok 1 ∧
+    IntegritySpec.reference (sampleFit.take 12 ++ [0, 0] ++ sampleFit.drop 14) = .bad 0 := by decide +kernel
+
+/-- the sample with a 12-byte header, sealed as this SDK seals it (file CRC over the records only) -/
+def legacySample : List Nat := [0x0c,0x20,0x5c,0x08,0x1d,0x00,0x00,0x00,0x2e,0x46,0x49,0x54] ++ sampleFit.drop 14
+
+/-- **Witness that the suffix clause fails at full strength (inside KF-C04-1):** `legacySample` is NOT a complete valid
+sequence by the integrity rules (its CRC skips the header) but the check accepts it, alone and appended to an accepted
+stream. -/
+theorem C04_suffix_witness :
+    IntegritySpec.reference legacySample = .bad 0 ∧ checkIntegrity legacySample = .ok 1 ∧
+    checkIntegrity (sampleFit ++ legacySample) = .ok 2 ∧ IntegritySpec.kfC04 legacySample = true ∧ ¬ C04_suffix_full := by
+  have h1 : IntegritySpec.reference legacySample = .bad 0 := by decide +kernel
+  have h3 : checkIntegrity (sampleFit ++ legacySample) = .ok 2 := by decide +kernel
+  refine ⟨h1, by decide +kernel, h3, by decide +kernel, ?_⟩
+  intro hfull
+  refine hfull sampleFit legacySample 1 (by decide +kernel) (by decide +kernel) (by decide) ?_ 2 h3
+  intro m hm; rw [h1] at hm; cases hm
+
+/-- C04_suffix_partial: trailing garbage after the sample is not a complete sequence by the reference, and is outside the class -/
+example : (∀ m, IntegritySpec.reference [0x0e, 0x20] ≠ .ok m) ∧
+    IntegritySpec.reference [0x0e, 0x20] = IntegritySpec.referenceAsBuilt [0x0e, 0x20] := by
+  have : IntegritySpec.reference [0x0e, 0x20] = .bad 0 := by decide +kernel
+  refine ⟨?_, by decide +kernel⟩
+  intro m; rw [this]; simp
 
 end Fit.C04
